@@ -260,7 +260,15 @@ func (vm *VirtualMachine) runCodeInternal(ctx context.Context, codeToRun *compil
 	vm.activateCode(0, startIP, codeObj)
 
 	// Run the entrypoint until completion
-	return vm.eval(vm.initContext(ctx))
+	if err := vm.eval(vm.initContext(ctx)); err != nil {
+		return err
+	}
+	// The code may have reached its end only because the context is over: a
+	// blocked primitive gives up then (a range over a channel ends as if the
+	// channel were closed, try catches the callback's error) and what follows
+	// can finish before the watcher has set the halt flag. The outcome of an
+	// evaluation whose context is over is the context's error.
+	return ctx.Err()
 }
 
 // clearStack empties the operand stack.
@@ -876,7 +884,16 @@ func (vm *VirtualMachine) Call(
 		}
 		vm.stop()
 	}()
-	return vm.callFunction(vm.initContext(ctx), fn, args)
+	result, err = vm.callFunction(vm.initContext(ctx), fn, args)
+	if err != nil {
+		return nil, err
+	}
+	// As in runCodeInternal: a call that ran to its end because the context
+	// is over ends with the context's error
+	if err := ctx.Err(); err != nil {
+		return nil, err
+	}
+	return result, nil
 }
 
 // Calls a compiled function with the given arguments. This is used internally
